@@ -75,7 +75,8 @@ impl Recording {
 }
 impl ImportResolver for Recording {
 	fn resolve_from(&self, from: &SourcePath, path: &dyn AsPathLike) -> Result<SourcePath> {
-		let r = if self.tick() {
+		let injected = self.tick();
+		let r = if injected {
 			Err(ErrorKind::ImportIo("injected fault".to_owned()).into())
 		} else {
 			self.inner.resolve_from(from, path)
@@ -84,6 +85,7 @@ impl ImportResolver for Recording {
 		let p: &Path = p.as_ref();
 		let out = match &r {
 			Ok(sp) => format!("ok:{}", src_name(&self.root, sp)),
+			Err(_) if injected => "err:INJECTED".to_owned(),
 			Err(e) => format!("err:{}", err_name(e)),
 		};
 		self.log.borrow_mut().push(json!([
@@ -98,13 +100,15 @@ impl ImportResolver for Recording {
 		self.resolve_from(&SourcePath::default(), path)
 	}
 	fn load_file_contents(&self, resolved: &SourcePath) -> Result<Vec<u8>> {
-		let r = if self.tick() {
+		let injected = self.tick();
+		let r = if injected {
 			Err(ErrorKind::ImportIo("injected fault".to_owned()).into())
 		} else {
 			self.inner.load_file_contents(resolved)
 		};
 		let out = match &r {
 			Ok(_) => "ok".to_owned(),
+			Err(_) if injected => "err:INJECTED".to_owned(),
 			Err(e) => format!("err:{}", err_name(e)),
 		};
 		self.log
